@@ -194,7 +194,10 @@ def harness_c15(tier, seed):
                 samples.append({"n": n, "rounds": rounds, "games": games})
             # decode random permutations of the multiset
             if n <= 10 and rounds <= 3:
-                days = (n - 1) * rounds if n % 2 == 0 else n * rounds
+              # destination shapes: the one of the game-plan space ((n - 1) * rounds days - for odd n some games must then be
+              # dropped), enough days for a full odd-n tournament, and a short plan that forces drops
+              day_options = sorted({(n - 1) * rounds, n * rounds if n % 2 else (n - 1) * rounds, max(1, (n - 1) * rounds - 2)})
+              for days in day_options:
                 for _ in range(3 if tier == "quick" else 20):
                     x = games[:]
                     rng.shuffle(x)
